@@ -19,17 +19,23 @@ def check_enabled(ctx, R="C19.enabled"):
     )
     model = ctx.model
     fn = model.func(IV, "Invocable._invokeSubBehavior")
-    pick = [f for f in ast.walk(fn) if isinstance(f, ast.FunctionDef) and f.name == "pickEnabledInvocable"]
+    pick = [f for f in ast.walk(fn) if isinstance(f, ast.FunctionDef) and f is not fn and any(isinstance(c, ast.Call) and dotted(c.func) == "Options" for c in ast.walk(f))]
     if not pick:
         raise AnalysisError("shape not recognised: pickEnabledInvocable")
     pk = pick[0]
-    stores = [n for n in ast.walk(pk) if isinstance(n, ast.Assign) and isinstance(n.targets[0], ast.Subscript) and unparse(n.targets[0].value) == "enabled"]
+    agentp = fn.args.args[1].arg
+    # the enabled set: the dict handed to Options(...)
+    optc = [c for c in ast.walk(pk) if isinstance(c, ast.Call) and dotted(c.func) == "Options" and len(c.args) == 1 and isinstance(c.args[0], ast.Name)]
+    if len(optc) != 1:
+        raise AnalysisError("shape not recognised: Options(<enabled set>) in pickEnabledInvocable")
+    en = optc[0].args[0].id
+    stores = [n for n in ast.walk(pk) if isinstance(n, ast.Assign) and isinstance(n.targets[0], ast.Subscript) and unparse(n.targets[0].value) == en]
     ctx.floor(R, len(stores), 2, "insertions into the enabled set")
     for s in stores:
         key = unparse(s.targets[0].slice)
         guards = [unparse(t) for t, p in lib.guard_tests(s, pk) if p]
         loop = next((a for a in ancestors(s) if isinstance(a, ast.For)), None)
-        enabled_guard = f"{key}._isEnabledForAgent(agent)" in guards
+        enabled_guard = f"{key}._isEnabledForAgent({agentp})" in guards
         weight_ok = False
         if loop is not None:
             if isinstance(loop.target, ast.Tuple) and isinstance(loop.iter, ast.Call) and unparse(loop.iter).endswith(".items()"):
@@ -48,21 +54,22 @@ def check_enabled(ctx, R="C19.enabled"):
                 f"program gave them: the choice probabilities differ from weight / sum of eligible weights",
             )
     t = unparse(pk)
-    empt = [n for n in ast.walk(pk) if isinstance(n, ast.If) and unparse(n.test) == "not enabled" and any(isinstance(x, ast.Raise) and "RejectSimulationException" in unparse(x) for x in n.body)]
+    empt = [n for n in ast.walk(pk) if isinstance(n, ast.If) and unparse(n.test) == f"not {en}" and any(isinstance(x, ast.Raise) and "RejectSimulationException" in unparse(x) for x in n.body)]
     if empt:
         ctx.ok(R, empt[0], "no eligible item => the simulation is rejected")
     else:
         ctx.finding(R, pk, "deadlock rejection", "pickEnabledInvocable no longer rejects the simulation when no item is eligible")
     opts = [c for c in ast.walk(pk) if isinstance(c, ast.Call) and dotted(c.func) == "Options"]
-    if len(opts) == 1 and [unparse(a) for a in opts[0].args] == ["enabled"]:
+    if len(opts) == 1 and [unparse(a) for a in opts[0].args] == [en]:
         ctx.ok(R, opts[0], "the pick is drawn from Options(enabled): probability proportional to weight among eligible items")
     else:
         ctx.finding(R, pk, "Options(enabled)", "the pick is no longer Options(enabled)")
-    single = [n for n in ast.walk(pk) if isinstance(n, ast.If) and unparse(n.test) == "len(enabled) == 1"]
-    if single and unparse(single[0].body[0]) == "choice = list(enabled)[0]":
+    single = [n for n in ast.walk(pk) if isinstance(n, ast.If) and lib.ctext(n.test) == lib.ctext_of(f"len({en}) == 1")]
+    if single and isinstance(lib.core(single[0].body)[0], ast.Assign) and unparse(lib.core(single[0].body)[0].value) == f"list({en})[0]":
         ctx.ok(R, single[0], "a single eligible item is taken deterministically")
     rets = [r for r in lib.returns_of(pk) if r.value is not None]
-    if len(rets) == 1 and unparse(rets[0].value) == "choice":
+    picked = set(lib.locals_assigned(pk, lambda v: isinstance(v, ast.Call) and dotted(v.func) == "Options")) | {f"Options({en})"}
+    if len(rets) == 1 and unparse(rets[0].value) in picked:
         ctx.ok(R, rets[0], "the picked item is returned")
     else:
         ctx.finding(R, pk, "pick return", "pickEnabledInvocable does not return the picked item")
@@ -82,20 +89,26 @@ def check_schedule(ctx, R="C19.schedule"):
             branches[n.test.comparators[0].value] = n
     if set(branches) < {"choose", "shuffle"}:
         raise AnalysisError("shape not recognised: schedule branches of _invokeSubBehavior")
+    subsp, agentp = fn.args.args[2].arg, fn.args.args[1].arg
+    pickn = [f.name for f in ast.walk(fn) if isinstance(f, ast.FunctionDef) and f is not fn and any(isinstance(c, ast.Call) and dotted(c.func) == "Options" for c in ast.walk(f))]
     ch = branches["choose"]
     last = lib.core(ch.body)[-1]
-    if unparse(last) == "subs = (pickEnabledInvocable(subs),)":
+    if pickn and unparse(last) == f"{subsp} = ({pickn[0]}({subsp}),)":
         ctx.ok(R, last, "choose: exactly one picked item is invoked")
     else:
         ctx.finding(R, ch, "choose branch", f"`do choose` no longer reduces the candidates to the single picked item (found `{norm_text(last, 60)}`)")
     sh = branches["shuffle"]
-    sched = [f for f in ast.walk(sh) if isinstance(f, ast.FunctionDef) and f.name == "scheduler"]
+    sched = [f for f in ast.walk(sh) if isinstance(f, ast.FunctionDef) and any(isinstance(n, ast.While) for n in f.body)]
     good = False
-    if sched:
+    subsp, agentp = fn.args.args[2].arg, fn.args.args[1].arg
+    pickn = [f.name for f in ast.walk(fn) if isinstance(f, ast.FunctionDef) and f is not fn and any(isinstance(c, ast.Call) and dotted(c.func) == "Options" for c in ast.walk(f))]
+    if sched and pickn:
         wl = [n for n in sched[0].body if isinstance(n, ast.While)]
-        if wl and unparse(wl[0].test) == "subs":
-            body = [unparse(s) for s in lib.core(wl[0].body)]
-            good = body == ["choice = pickEnabledInvocable(subs)", "subs.pop(choice)", "yield from self._invokeInner(agent, (choice,))"]
+        if wl and unparse(wl[0].test) == subsp:
+            body = lib.core(wl[0].body)
+            if len(body) == 3 and isinstance(body[0], ast.Assign) and isinstance(body[0].targets[0], ast.Name):
+                ch_ = body[0].targets[0].id
+                good = [unparse(s) for s in body] == [f"{ch_} = {pickn[0]}({subsp})", f"{subsp}.pop({ch_})", f"yield from self._invokeInner({agentp}, ({ch_},))"]
     if good:
         ctx.ok(R, sched[0], "shuffle: while items remain, pick among them, remove the pick, run it")
     else:
